@@ -21,6 +21,7 @@ import (
 	"github.com/andydunstall/piko/agent/reverseproxy"
 	"github.com/andydunstall/piko/client"
 	"github.com/andydunstall/piko/pkg/log"
+	"github.com/andydunstall/piko/server/cluster"
 	"github.com/andydunstall/piko/server/config"
 	"verifharness/internal/e4"
 	"verifharness/internal/evid"
@@ -41,8 +42,8 @@ type c08Req struct {
 var (
 	c08Methods = []string{"GET", "POST", "PUT", "DELETE", "PATCH", "HEAD", "OPTIONS"}
 	c08Paths   = []string{"/", "/a/b", "/a%2Fb", "/a%20b", "/%E2%9C%93", "//double"}
-	c08Queries = []string{"", "a=b", "a=1&a=2", "q=%26%3D", "empty=", "+"}
-	c08Hdrs    = []string{"none", "multi", "authorization", "cookie", "host-port"}
+	c08Queries = []string{"", "a=b", "a=1&a=2", "q=%26%3D", "empty=", "+", "tags=red;green&page=2", "bad=%zz&ok=1"}
+	c08Hdrs    = []string{"none", "multi", "authorization", "cookie", "host-port", "forwarded"}
 	c08Bodies  = []string{"0", "1", "64k+1", "1M-chunked"}
 	c08Resps   = []string{"200", "201-location", "204", "301", "404", "500", "set-cookies", "chunked", "trailer"}
 )
@@ -171,7 +172,9 @@ func c08Expected(shape string) (status int, body string, hdr map[string][]string
 }
 
 type c08World struct {
-	nodes []*e4.FullNode
+	agentAddr string // agent reverse proxy in front of the same upstream handler, over plain TCP
+	closers   []io.Closer
+	nodes     []*e4.FullNode
 	up    *c08Upstream
 	ln    client.Listener
 	seq   int
@@ -191,6 +194,20 @@ func newC08World(timeout time.Duration) *c08World {
 	}
 	w.ln = ln
 	go func() { _ = http.Serve(ln, w.up) }()
+	// the agent path: agent reverse proxy -> local service (same handler)
+	svc, err := net.Listen("tcp", "127.0.0.1:0")
+	if err != nil {
+		evid.Fatal("listen: %v", err)
+	}
+	go func() { _ = http.Serve(svc, w.up) }()
+	front, err := net.Listen("tcp", "127.0.0.1:0")
+	if err != nil {
+		evid.Fatal("listen: %v", err)
+	}
+	rp := reverseproxy.NewReverseProxy(agentconfig.ListenerConfig{EndpointID: "e1", Addr: svc.Addr().String(), Timeout: timeout}, log.NewNopLogger())
+	go func() { _ = http.Serve(front, rp) }()
+	w.agentAddr = front.Addr().String()
+	w.closers = append(w.closers, svc, front)
 	if !e4.WaitFor(20*time.Second, func() bool {
 		n, ok := nodes[0].State().Node(nodes[1].ID)
 		return ok && n.Endpoints["e1"] == 1
@@ -201,6 +218,9 @@ func newC08World(timeout time.Duration) *c08World {
 }
 
 func (w *c08World) close() {
+	for _, c := range w.closers {
+		c.Close()
+	}
 	_ = w.ln.Shutdown()
 	for _, n := range w.nodes {
 		n.Stop()
@@ -218,7 +238,11 @@ func (w *c08World) run(c c08Req) (sig, msg string) {
 	if c.Route == "forwarded" {
 		node = w.nodes[0]
 	}
-	target := "http://" + node.ProxyAddr() + c.Path
+	addr := node.ProxyAddr()
+	if c.Route == "agent" {
+		addr = w.agentAddr
+	}
+	target := "http://" + addr + c.Path
 	if c.Query != "" {
 		target += "?" + c.Query
 	}
@@ -254,6 +278,11 @@ func (w *c08World) run(c c08Req) (sig, msg string) {
 		sent.Set("Cookie", "sid=abc; theme=dark")
 	case "host-port":
 		req.Host = "e1.piko.test:8443"
+	case "forwarded":
+		// set by an outer proxy in front of piko: end-to-end as far as piko is concerned
+		sent.Set("Forwarded", "for=192.0.2.60;proto=https")
+		sent.Set("X-Forwarded-Host", "public.example.com")
+		sent.Set("X-Forwarded-Proto", "https")
 	}
 	for k, v := range sent {
 		req.Header[k] = v
@@ -338,7 +367,7 @@ func c08Cases(full bool) []c08Req {
 			out = append(out, c)
 		}
 	}
-	for _, route := range []string{"local", "forwarded"} {
+	for _, route := range []string{"local", "forwarded", "agent"} {
 		if full {
 			var rec func(d int, ix []int)
 			rec = func(d int, ix []int) {
@@ -508,6 +537,35 @@ func c08Failures(run *evid.Run, evals, nontrivial *int) {
 		}
 	}
 	one("healthy component upstream", 200)
+	// forwarded to a node that accepts the connection and then says nothing
+	stall, err := net.Listen("tcp", "127.0.0.1:0")
+	if err != nil {
+		evid.Fatal("listen: %v", err)
+	}
+	defer stall.Close()
+	go func() {
+		for {
+			c, err := stall.Accept()
+			if err != nil {
+				return
+			}
+			defer c.Close()
+		}
+	}()
+	cl.Nodes[0].CS.AddNode(&cluster.Node{ID: "silent", Status: cluster.NodeStatusActive, ProxyAddr: stall.Addr().String(), AdminAddr: "127.0.0.1:1", Endpoints: map[string]int{"e7": 1}})
+	{
+		t0 := time.Now()
+		res := e4.Do(cl.Nodes[0].Addr, e4.Addressing{Mode: "header", Endpoint: "e7"})
+		kind := "forwarded to a node that accepts the connection but never answers"
+		switch {
+		case res.Err != "":
+			report(kind, "no-response", fmt.Sprintf("%s after %s", res.Err, time.Since(t0).Round(time.Millisecond)))
+		case res.Status != 504:
+			report(kind, "wrong-gateway-status", fmt.Sprintf("got %d, want 504", res.Status))
+		default:
+			report(kind, "", "")
+		}
+	}
 	su.Refuse.Store(true)
 	one("upstream refuses the connection", 502)
 	su.Refuse.Store(false)
